@@ -160,6 +160,7 @@ func registerIntrinsics() {
 	intrinsics["vNowNano"] = func(fr *frame, a []value) value { return fr.i.sched.now }
 	intrinsics["vPreempt"] = func(fr *frame, a []value) value {
 		fr.i.sched.preempt = int(asInt64(a[0]))
+		fr.i.sched.points = 0
 		return nil
 	}
 	intrinsics["vAutoTime"] = func(fr *frame, a []value) value {
